@@ -144,10 +144,15 @@ class Interp:
         elif k == 'msg':
             self.addr.send_msg('/m', op[1])
         elif k == 'bundle':
-            try:
-                self.addr.send_bundle(op[1], *op[2])
-            except ValueError as e:
-                self.rec(kind='refused', r=who, op=op, secs=self.now())
+            import copy
+            elems = copy.deepcopy(op[2])    # the case itself stays pristine
+            for _ in range(2 if len(op) > 3 and op[3] == 'twice' else 1):
+                # 'twice': the same list objects are sent again, as a user
+                # keeping a prepared bundle around would
+                try:
+                    self.addr.send_bundle(op[1], *elems)
+                except ValueError as e:
+                    self.rec(kind='refused', r=who, op=op, secs=self.now())
         elif k == 'cwait':
             return ('from', self.conds[op[1]].wait())
         elif k == 'csignal':
